@@ -65,7 +65,11 @@ META = {
         "neighbours) although the statement names only the per-direction angles",
         "demag: default dimension names x, y, z, meshes up to 6 cells per direction, "
         "cuboid aspect ratios up to ~20; Aharoni's formula is the trusted reference (1e-9 |M|)",
-        "continuous-method charge of compact textures is not compared with the integer",
+        "continuous-method charge of resolved compact textures is only required to lie within "
+        "0.4|Q| of the winding number (sanity anchor for scale and sign; measured <= 0.2|Q|)",
+        "supplementary demag monitors beyond the statement's wording: covariance under "
+        "relabelling of the axes (exact physics) and the point-dipole far field of one cubic "
+        "cell at >= 2 cells distance within 10 % (measured <= 2.3 %)",
     ],
 }
 
@@ -274,6 +278,11 @@ def bergluescher_integer(ctx):
                                 method="berg-luescher")
     ctx.check("C19.bergluescher.integer", abs(qr - (Q * pol)) <= 1e-9, got=qr,
               expected=Q * pol, reversed=True, **info)
+    # finite-difference method: no exact claim, but on a resolved compact texture it
+    # approximates the winding number (measured deviation <= 0.2 |Q| on this domain)
+    qc = dft.topological_charge(f, method="continuous")
+    ctx.check("C19.continuous.approximates_winding", abs(qc - (-Q * pol)) <= 0.4 * abs(Q),
+              got=qc, expected=-Q * pol, **dict(info, method="continuous"))
     qa = dft.topological_charge(f, method="berg-luescher", absolute=True)
     ctx.check("C19.bergluescher.absolute_ge", qa >= abs(q) - 1e-9, absolute=qa, charge=q, **info)
     ctx.sig(("bl", Q, pol, masked, dims is None, int(np.floor(np.log10(np.max(cell))))),
@@ -528,6 +537,46 @@ def demag(ctx):
                   **info)
     else:
         is_cube = False
+    # ---- supplementary (physics, not spelled out in the statement): relabelling the axes
+    # of a non-uniformly magnetised sample relabels the demag field the same way
+    Mr = rng.normal(size=(*n, 3)) * 10.0 ** rng.uniform(0, 6)
+    if rng.random() < 0.5:
+        Mr[rng.random(tuple(n)) < 0.4] = 0.0
+    perm = list(gen.pick(rng, [(1, 2, 0), (2, 0, 1), (1, 0, 2), (0, 2, 1), (2, 1, 0)]))
+    H0 = dft.demag_field(df.Field(mesh, nvdim=3, value=Mr), tensor).array
+    mesh_p = df.Mesh(p1=pmin[perm].tolist(), p2=(pmin + cell * n)[perm].tolist(),
+                     n=[int(k) for k in n[perm]])
+    Mp = np.transpose(Mr, (*perm, 3))[..., perm]
+    Hp = dft.demag_field(df.Field(mesh_p, nvdim=3, value=Mp), dft.demag_tensor(mesh_p)).array
+    expHp = np.transpose(H0, (*perm, 3))[..., perm]
+    ctx.check("C19.demag.axis_relabelling", close(Hp, expHp, rtol=1e-9, scale=float(np.max(np.abs(Mr)))),
+              permutation=perm, maxdiff=maxdiff(Hp, expHp), scale=float(np.max(np.abs(Mr))),
+              **dict(base, tool="demag_field"))
+    # ---- supplementary: far field of one magnetised cubic cell ~ point dipole
+    # (measured deviation <= 2.3 % of the dipole scale at >= 2 cells; tolerance 10 %)
+    if cubic and np.max(n) >= 3:
+        j = np.array([int(rng.integers(0, k)) for k in n])
+        Mv = rng.normal(size=3) * 10.0 ** rng.uniform(0, 6)
+        one = np.zeros((*n, 3))
+        one[tuple(j)] = Mv
+        H1 = dft.demag_field(df.Field(mesh, nvdim=3, value=one), tensor).array
+        idx = np.stack(np.meshgrid(*[np.arange(k) for k in n], indexing="ij"), axis=-1)
+        rvec = (idx - j) * cell
+        dist = np.linalg.norm(rvec, axis=-1)
+        sel = dist >= 2 * cell[0] * (1 - 1e-9)
+        if sel.any():
+            rr, dd = rvec[sel], dist[sel][:, None]
+            rh = rr / dd
+            V = float(np.prod(cell))
+            Hd = V / (4 * np.pi) * (3 * rh * (rh @ Mv)[:, None] - Mv) / dd ** 3
+            sc = 2 * np.linalg.norm(Mv) * V / (4 * np.pi * dd[:, 0] ** 3)
+            err = np.linalg.norm(H1[sel] - Hd, axis=-1) / sc
+            ctx.check("C19.demag.far_field_dipole", np.all(err <= 0.1), worst=float(err.max()),
+                      source_cell=j, M=Mv, **dict(base, tool="demag_field"))
+            # the magnetised cell itself: -M/3 (cube)
+            ctx.check("C19.demag.self_field_cube", np.all(np.abs(H1[tuple(j)] + Mv / 3)
+                                                          <= 1e-9 * np.linalg.norm(Mv)),
+                      got=H1[tuple(j)], expected=-Mv / 3, source_cell=j, **dict(base, tool="demag_field"))
     ctx.sig(("demag", bool(cubic), shape, bool(whole), is_cube, tuple(int(min(k, 2)) for k in n)),
             nontrivial=bool(np.prod(n) > 1))
     ctx.sample({"kind": "demag", **base, "cuboid": [lo, hi]})
